@@ -8,7 +8,7 @@
   tools/seedeval.py detect <name> [PROP ...] [--tier quick|thorough] [--keep]
       Runs ./check for the property (default: meta.json's) against a scratch worktree of /repo HEAD with the patch applied
       (XTL_REPO / VERIF_BUILD point the driver at the worktree and a private build directory; the driver, harnesses and
-      oracles are those of a private copy of /verif taken at call time, so edits made meanwhile do not interfere) and
+      oracles are those of a private copy of /verif's HEAD commit taken at call time, so edits made meanwhile do not interfere) and
       records the outcome in meta.json.
   tools/seedeval.py table        regenerates seeded/README.md from the meta.json files
 
@@ -125,9 +125,11 @@ def detect(name, props, tier, keep=False):
     try:
         r = sh(["git", "-C", wt, "apply", os.path.join(d, "patch.diff")])
         assert r.returncode == 0, r.stdout
-        sh(["rsync", "-a", "--exclude", "build", "--exclude", ".git", VERIF + "/", snap + "/"])
+        os.makedirs(snap)
+        r = sh("git -C %s archive HEAD | tar -x -C %s" % (VERIF, snap))      # committed state only: edits in progress do not interfere
+        assert r.returncode == 0, r.stdout
         vhead = sh(["git", "-C", VERIF, "rev-parse", "--short", "HEAD"]).stdout.strip()
-        dirty = bool(sh(["git", "-C", VERIF, "status", "--porcelain", "--", "check", "sim", "harness", "lib", "refs"]).stdout.strip())
+        dirty = False
         for prop in props:
             env = dict(os.environ, XTL_REPO=wt, VERIF_BUILD=snap + "/build")
             t0 = time.time()
